@@ -36,6 +36,11 @@ old='\t\tmux.Handle(bigmachine.RpcPrefix, server)\n\t\thttpServer := httptest.Ne
 assert old in t, "testsystem.Start changed"
 new='\t\tvar m *bigmachine.Machine\n\t\tmux.Handle(bigmachine.RpcPrefix, hookHandler{s, &m, server})\n\t\thttpServer := httptest.NewServer(mux)\n\t\tm = &bigmachine.Machine{'
 t=t.replace(old,new,1)
+# a killed machine keeps its port and aborts every connection (no address reuse while the driver holds the old address)
+old='\tm.Cancel()\n\tm.Server.CloseClientConnections()\n\tm.Server.Close()\n\tm.Server.Listener.Close()\n\tm.Server.Config.SetKeepAlivesEnabled(false)\n'
+assert old in t, "testsystem machine.Kill changed"
+new='\tm.Cancel()\n\tmarkDead(m.Machine.Addr)\n\tm.Server.CloseClientConnections()\n\tm.Server.Config.SetKeepAlivesEnabled(false)\n'
+t=t.replace(old,new,1)
 open(p,'w').write(t)
 PY
 # bigmachine must itself use the patched base
